@@ -24,8 +24,27 @@ def _cmp_fact(left: ast.expr, op: type, right: ast.expr, sub) -> str:
     return f"{l} {SYM[op]} {r}"
 
 
+class _Walrus(ast.NodeTransformer):
+    def visit_NamedExpr(self, node: ast.NamedExpr) -> ast.AST:
+        return node.target
+
+
+def _strip_walrus(e: ast.expr) -> ast.expr:
+    if any(isinstance(x, ast.NamedExpr) for x in ast.walk(e)):
+        return _Walrus().visit(clone(e))
+    return e
+
+
 def facts(atom: ast.expr, outcome: bool, sub=src) -> list[str]:
-    """Canonical facts implied by atom == outcome."""
+    """Canonical facts implied by atom == outcome.  `(x := e)` inside a test
+    stands for `x` (the binding is an assignment event, not part of the fact)."""
+    if isinstance(atom, ast.NamedExpr):
+        return facts(atom.target, outcome, sub)
+    atom = _strip_walrus(atom)
+    return _facts(atom, outcome, sub)
+
+
+def _facts(atom: ast.expr, outcome: bool, sub=src) -> list[str]:
     if isinstance(atom, ast.UnaryOp) and isinstance(atom.op, ast.Not):
         return facts(atom.operand, not outcome, sub)
     if isinstance(atom, ast.BoolOp):
@@ -46,8 +65,6 @@ def facts(atom: ast.expr, outcome: bool, sub=src) -> list[str]:
                 left = c
             return out
         return ["falsy(" + sub(atom) + ")"]
-    if isinstance(atom, ast.NamedExpr):
-        return facts(atom.target, outcome, sub) + facts(atom.value, outcome, sub)
     if isinstance(atom, ast.Call) and isinstance(atom.func, ast.Name) and atom.func.id == "bool" and len(atom.args) == 1:
         return facts(atom.args[0], outcome, sub)
     if isinstance(atom, ast.Call) and isinstance(atom.func, ast.Name) and atom.func.id == "len" and len(atom.args) == 1:
@@ -136,6 +153,9 @@ class Resolver:
 
     def src(self, e: ast.expr) -> str:
         return src(self.expr(e))
+
+    def src_at(self, depth: int):
+        return lambda e: src(self.expr(e, depth))
 
 
 def _assignments(n: ast.AST):
